@@ -1364,6 +1364,18 @@ NP.update({"torch.tensor": t_tensor, "torch.cat": t_cat, "torch.stack": t_stack,
            "torch.eye": t_eye, "torch.unique": t_unique, "torch.einsum": t_einsum})
 NP["scipy.optimize.minimize"] = sp_minimize
 NP["sklearn.metrics.pairwise.euclidean_distances"] = sk_euclidean
+
+
+def sp_cdist(ex, st, args, kwargs):
+    """scipy.spatial.distance.cdist for metric euclidean / sqeuclidean: entry (i,j) = (squared) distance of the rows."""
+    metric = kwargs.get("metric", args[2] if len(args) > 2 else "euclidean")
+    if metric not in ("euclidean", "sqeuclidean"):
+        raise Unsupported("cdist metric %r" % (metric,))
+    L.used("scipy.spatial.distance.cdist: entry (i,j) is the (squared) Euclidean distance of row i of XA and row j of XB")
+    return sk_euclidean(ex, st, [args[0], args[1]], {"squared": metric == "sqeuclidean"})
+
+
+NP["scipy.spatial.distance.cdist"] = sp_cdist
 def np_clip(ex, st, args, kwargs):
     a = args[0]
     lo = kwargs.get("a_min", args[1] if len(args) > 1 else None)
@@ -1605,6 +1617,10 @@ def call_method(ex, st, obj, name, args, kwargs, node):
             return list(obj.keys())
         if name == "values":
             return list(obj.values())
+    if isinstance(obj, str) and name in ("strip", "lstrip", "rstrip", "lower", "upper", "casefold", "startswith", "endswith",
+                                         "replace", "split", "title", "capitalize", "format", "join", "isdigit", "isalpha") \
+            and all(isinstance(a, (str, int, tuple, list)) for a in args) and not kwargs:
+        return getattr(obj, name)(*args)      # concrete string, concrete arguments: Python's own semantics
     if V.is_num(obj) or V.is_bool(obj):
         if name == "astype":
             k = _kind_from_dtype(args[0])
@@ -1664,6 +1680,12 @@ def arr_method(ex, st, a, name, args, kwargs):
         if a.ndim == 1:
             return a.flat()
         raise Unsupported("tolist on nd")
+    if name == "tobytes":
+        # the byte string is an injective function of (dtype, values): modelled by the tuple of CONCRETE values (a hashable key)
+        vals = a.flat()
+        if not all(isinstance(x, (int, bool, Fraction)) for x in vals):
+            raise Unsupported("tobytes of an array with symbolic entries")
+        return ("bytes", a.kind) + tuple(vals)
     if name == "dot":
         return np_dot(ex, st, [a, args[0]], {})
     if name == "repeat":
@@ -1858,6 +1880,14 @@ def call_builtin(ex, st, name, args, kwargs, node):
     if name == "hasattr":
         return do_hasattr(ex, st, args[0], args[1])
     if name == "getattr":
+        if len(args) == 3:
+            if args[0] is None:
+                return args[2]
+            try:
+                r = ex.getattr(args[0], args[1], st, node)
+            except (sx.AttrMissing, AttributeError):
+                return args[2]
+            return sx.Paths(r)
         r = ex.getattr(args[0], args[1], st, node)
         return sx.Paths(r)
     if name == "map":
